@@ -4,7 +4,7 @@ META = dict(
     technique="bounded-exhaustive enumeration of layout edits (every single edit at every position, every all-at-once "
               "variant) through the real FloScript Builder; structural dump equality with the original layout, and run-trace "
               "equality with the real Skedder for runnable programs",
-    text="Programs: two runnable generated programs, one generated program holding every verb and clause form (117 commands), "
+    text="Programs: two runnable generated programs, one generated program holding every verb and clause form (incl. `via` and `as` clauses on framer/frame/do/aux/rear/log), "
          "and the example plans (10 in quick, all 33 in thorough; box5/box6 with their `load`ed file, testServer with skedder "
          "metas). Each is parsed into logical commands and re-rendered with exactly one layout edit: each command's indentation "
          "set to 0/2/7 spaces or a tab; a trailing comment (plain, and one holding quotes and connectives) appended; a blank / "
@@ -165,6 +165,12 @@ def run():
     ck = core.Check("C16", META["level"], META["technique"])
     scripts = _load()
     progs = programs(scripts)
+    # the every-verb program must offer the split-before-connective edit a `via` / `as` clause on each verb having one
+    allverbs = scripts.parse_commands([t for n, k, t, f in progs if n == "allverbs"][0])
+    for verb, conn in (("framer", "via"), ("frame", "via"), ("do", "via"), ("do", "as"), ("aux", "via"), ("aux", "as"),
+                       ("rear", "as"), ("log", "as")):
+        if not any(c["tokens"][0] == verb and conn in c["tokens"][1:] for c in allverbs):
+            raise core.BrokenCheck("generated program 'allverbs' has no `%s ... %s` command" % (verb, conn))
     items = []
     nvar = {}
     for pi, (name, kind, text, flag) in enumerate(progs):
@@ -199,6 +205,8 @@ def run():
         "of a 12-tick run; failing builds compare by (error class, message with line numbers masked)",
         "blank/comment lines are inserted between commands and before connective-continuation lines, never inside a "
         "backslash-continued command (an escaped newline followed by a comment is not a reformatting)",
+        "the reserved words at which a command is split (22 connectives, 6 comparisons) are a literal list in the harness "
+        "written from the documentation, not read from ioflo at run time",
         "logical commands are found with the same rules as Builder.tokenize/build; the one-command-per-line normal form of "
         "every program is itself one of the variants compared with the original",
     ]
